@@ -81,6 +81,7 @@ func (match6Engine) Run(ctx *fw.Ctx, cs any) {
 		plainAt int // index of the request carrying the un-relayed inner message, -1 none
 	}
 	var ms []meta
+	var twins [][2]int // pairs of requests that differ in the value of the client identifier only
 	xid := uint32(rng.Intn(1 << 20))
 	addReq := func(d []byte, plainAt int) int {
 		src := fmt.Sprintf("2001:db8:c1::%x", 1+rng.Intn(60000))
@@ -126,6 +127,14 @@ func (match6Engine) Run(ctx *fw.Ctx, cs any) {
 				}
 				inner := pkt.Msg6(byte(typ), xid, opts)
 				plain := addReq(inner, -1)
+				if hasCID && supported6[byte(typ)] && rng.Intn(4) == 0 {
+					// the same message from a client with another identifier (of another kind, or exactly the
+					// server's own): to a server a client identifier is opaque - whether the message is
+					// answered cannot depend on its value
+					o2 := append([]pkt.Opt6{pkt.O6(pkt.OptClientID6, [][]byte{pkt.DUIDLL([]byte{0x00, 0xde, 0xad, 0xbe, 0xef, 0x00}), pkt.DUIDLLT(0, []byte{0x00, 0xde, 0xad, 0xbe, 0xef, 0x00}), randDUID(rng)}[rng.Intn(3)])}, opts[1:]...)
+					xid++
+					twins = append(twins, [2]int{plain, addReq(pkt.Msg6(byte(typ), xid, o2), -1)})
+				}
 				depth := rng.Intn(5)
 				if supported6[byte(typ)] && rng.Intn(3) == 0 {
 					depth = []int{5, 7, 8, 9, 10, 12, 16, 31, 32, 33}[rng.Intn(10)] // around and beyond the relay hop-count limit
@@ -242,6 +251,18 @@ func (match6Engine) Run(ctx *fw.Ctx, cs any) {
 		}
 		for _, f := range model.Judge6(rq, reps) {
 			ctx.Viol(f.Prop, f.Sig, "%s: request %x...: %s", conf, m.data[:min(len(m.data), 80)], f.Msg)
+		}
+	}
+	if match6Stateless[c.Chain] {
+		for _, tw := range twins {
+			if tw[1] >= len(out.Res) {
+				break
+			}
+			ctx.Count("match6.client_identifier_twins", 1)
+			a, b := len(out.Res[tw[0]].Caps), len(out.Res[tw[1]].Caps)
+			if (a > 0) != (b > 0) {
+				ctx.Viol("C12", "answer-depends-on-client-identifier-value", "%s: two messages that differ only in the value of their client identifier (and transaction id): %x... got %d replies, %x... got %d", conf, ms[tw[0]].data[:min(len(ms[tw[0]].data), 40)], a, ms[tw[1]].data[:min(len(ms[tw[1]].data), 40)], b)
+			}
 		}
 	}
 	if out.Died {
